@@ -123,7 +123,7 @@ def trace_cfg(ctx, prod, cap):
     return path
 
 
-def validate(ctx, groups, chunk=400, timeout=1500):
+def validate(ctx, groups, chunk=700, timeout=1500):
     """groups: list of (label, cfg, lines).  Like scheck.validate_histories, but all chunks of all groups share one
     pool.  Returns {label: [indices of rejected histories | 'inv:<name>']}."""
     module = os.path.join(SPEC, 'Trace_SpscQueue.tla')
@@ -153,7 +153,7 @@ def validate(ctx, groups, chunk=400, timeout=1500):
         raise MachineryError('trace validation failed to run (%s):\n%s' % (label, res.tail(40)))
 
     rejected = {label: [] for label, _, _ in groups}
-    with concurrent.futures.ThreadPoolExecutor(max_workers=max(2, vlib.NCPU - 2)) as ex:
+    with concurrent.futures.ThreadPoolExecutor(max_workers=max(2, vlib.NCPU // 2)) as ex:
         for label, idx in ex.map(one, jobs):
             rejected[label] += idx
     ctx.add('impl_traces', sum(len(g[2]) for g in groups))
@@ -214,7 +214,8 @@ def run(ctx):
             runs.append(('X 2 60 %d %d cap=%d k=%d %s' % (big, hc, cap, k, extra), (0,), cap))
     # the real usage pattern: two producers share the consumer's QueueReader through FewToFewBiQueue
     runs.append(('X 3 40 %d %d cap=1 k=1 multi' % (big, hc), (0, 2), 1))
-    runs.append(('X 3 40 %d %d cap=1 k=2 multi spare=0' % (big, hc), (0, 2), 1))
+    # (quick tier: all schedules are explored under the driver's P-monitor, 1500 of the distinct histories go to TLC)
+    runs.append(('X 3 40 %d %d cap=1 k=2 multi spare=0' % (big, hc if ctx.thorough else 1500), (0, 2), 1))
     if ctx.thorough:
         runs.append(('X 3 40 %d %d cap=2 k=2 multi spare=0' % (big, hc), (0, 2), 2))
         runs.append(('X 3 40 %d %d cap=1 k=2 multi spare=1' % (big, hc), (0, 2), 1))
@@ -229,6 +230,7 @@ def run(ctx):
 
     hist_groups = {}
     all_stats = []
+    dviols = []
     with concurrent.futures.ThreadPoolExecutor(max_workers=max(2, vlib.NCPU - 2)) as ex:
         for run_, (stats, hists, viols) in zip(runs, ex.map(explore, runs)):
             s = stats[0]
@@ -238,10 +240,13 @@ def run(ctx):
             ctx.add('impl_steps', s.get('steps', 0))
             ctx.add('impl_transitions', s.get('transitions', 0))
             ctx.add('impl_histories_distinct', s.get('histories', s.get('walks', 0)))
-            for v in viols[:2]:
-                ctx.violation('driver P-monitor (%s): %s' % (run_[0].strip(), v['what']),
-                              {'kind': 'schedule', 'config': run_[0], 'path': v.get('path'), 'events': v['ev']})
+            dviols += [(len(v.get('path') or v['ev']), run_[0].strip(), v) for v in viols]
             hist_groups.setdefault((run_[1], run_[2]), []).extend(hists)
+
+    ctx.cov['driver_monitor_violations'] = len(dviols)
+    for _, cmd, v in sorted(dviols, key=lambda x: x[0])[:2]:    # the two shortest schedules
+        ctx.violation('driver P-monitor (%s): %s' % (cmd, v['what']),
+                      {'kind': 'schedule', 'config': cmd, 'path': v.get('path'), 'events': v['ev']})
 
     # 4. every distinct history validated by TLC against the P-layer
     groups = []
@@ -261,7 +266,8 @@ def run(ctx):
     for label, cfg, ul in groups:
         rej = rejected[label]
         ctx.log('TLC validated %d distinct histories (%s) against SpscQueue.tla; rejected: %d' % (len(ul), label, len(rej)))
-        for i in sorted(rej, key=lambda x: len(ul[x]['ev']) if isinstance(x, int) else 0)[:2]:
+        ctx.add('histories_rejected', len(rej))
+        for i in sorted(rej, key=lambda x: len(ul[x]['ev']) if isinstance(x, int) else 0)[:1]:   # the shortest one per group
             ctx.violation('history is not a behaviour of SpscQueue.tla (P-layer), %s' % label,
                           {'kind': 'history', 'group': label, 'events': ul[i]['ev'] if isinstance(i, int) else i})
         total += len(ul)
